@@ -153,7 +153,15 @@ def part_b(ctx):
         files = [f for f in files if f]
         if len(files) < 2:
             continue
-        paths = [mkfile(d, f"f{j}", f) for j, f in enumerate(files)]
+        ikind = r.choice(["csi", "tbi"])
+        paths = [mkfile(d, f"f{j}", f, kind=ikind) for j, f in enumerate(files)]
+        nocounts = r.random() < 0.4
+        if nocounts:
+            # old-style index without per-contig counts on some of the files: the total record
+            # count is then unknown (inf) and finalise takes a different path
+            for pth in paths:
+                if r.random() < 0.7:
+                    vcfgen.strip_index_counts(ctx.model, vcfgen.index_path(pth))
         parts = []
         for f in files:
             for c in (0, 1):
@@ -163,9 +171,10 @@ def part_b(ctx):
         acc, disj, _ = ctx.model.call(1300, parts)
         orders = list(itertools.permutations(range(len(paths))))
         for order in orders[: ctx.n(2, 6)]:
-            doc = dict(part="cuts", kind=kind, files=[files[j] for j in order])
+            doc = dict(part="cuts", kind=kind, index=ikind, counts_stripped=nocounts, files=[files[j] for j in order])
             ctx.case(doc, nontrivial=True, sample=(t == 0))
             ctx.count("cuts:" + kind)
+            ctx.count("cuts:index-without-counts" if nocounts else "cuts:index-with-counts")
             o = convert_outcome([paths[j] for j in order], out, icfp)
             if o.startswith("other"):
                 ctx.fail(doc, dict(outcome=o), "conversion of a file set died with an unexpected exception class")
@@ -220,6 +229,32 @@ def part_b(ctx):
                 ctx.fail(doc, dict(outcome=o), "files with identical headers were rejected")
             if (o == "ok") != (m[0] == 1):
                 ctx.disagree(doc, o, m, "header outcome differs from the model")
+    # INFO and FORMAT keys sharing an ID: each must be compared in its own category
+    HS = HDR + ['##FORMAT=<ID=GT,Number=1,Type=String,Description="g">', '##FORMAT=<ID=DP,Number=1,Type=Integer,Description="fd">']
+    def mk_shared(name, hdr, info_val, fmt_val, pos):
+        text = vcfgen.vcf_text(hdr, [f"c0\t{p}\t.\tA\tT\t.\tPASS\t{info_val}\tGT:DP\t0/1:{fmt_val}" for p in pos], ("S1",))
+        return vcfgen.make_indexed(d, name, text)
+    sa = mk_shared("sa", HS, "DP=3", "4", (10, 20))
+    shared = {
+        "info-retyped": ([h.replace("Type=Integer", "Type=Float") if "INFO=<ID=DP" in h else h for h in HS], "DP=1.5", "4"),
+        "info-renumbered": ([h.replace("Number=1", "Number=2") if "INFO=<ID=DP" in h else h for h in HS], "DP=1,2", "4"),
+        "info-missing": ([h for h in HS if "INFO=<ID=DP" not in h], ".", "4"),
+        "format-retyped": ([h.replace("Type=Integer", "Type=Float") if "FORMAT=<ID=DP" in h else h for h in HS], "DP=3", "1.5"),
+        "format-renumbered": ([h.replace("Number=1", "Number=2") if "FORMAT=<ID=DP" in h else h for h in HS], "DP=3", "1,2"),
+        "info-description": ([h.replace('Description="d"', 'Description="other"') if "INFO=<ID=DP" in h else h for h in HS], "DP=3", "4"),
+        "same": (HS, "DP=5", "6"),
+    }
+    for name, (hdr, iv, fv) in shared.items():
+        sb = mk_shared("sb", hdr, iv, fv, (100, 200))
+        for lst in ([sa, sb], [sb, sa]):
+            doc = dict(part="header", perturbation="shared-id:" + name, first=("a" if lst[0] == sa else "b"))
+            ctx.case(doc, nontrivial=True)
+            ctx.count("header:shared-id")
+            o = convert_outcome(lst, out, icfp)
+            if name != "same" and (o == "ok" or finished(out)):
+                ctx.fail(doc, dict(outcome=o), f"files with incompatible headers (INFO/FORMAT sharing an ID, {name}) were accepted")
+            if name == "same" and o != "ok":
+                ctx.fail(doc, dict(outcome=o), "files with identical headers were rejected")
     # a sample set difference
     pc = mkfile(d, "hc", base, samples=("S1",))
     pd = mkfile(d, "hd", other, samples=("S2",))
